@@ -1286,6 +1286,17 @@ pub fn gen_txt(rng: &mut Rng, thorough: bool, out: &mut String) {
             ("x-space-after-prefix".into(), "reject", format!("enr: {body}")),
             ("x-nonascii".into(), "reject", format!("{good}é")),
             ("x-empty".into(), "reject", String::new()),
+            ("x-quoted".into(), "reject", format!("\"{good}\"")),
+            ("x-quoted-noprefix".into(), "reject", format!("\"{body}\"")),
+            ("x-single-quoted".into(), "reject", format!("'{good}'")),
+            ("x-angle".into(), "reject", format!("<{good}>")),
+            ("x-paren".into(), "reject", format!("({good})")),
+            ("x-quote-front".into(), "reject", format!("\"{good}")),
+            ("x-quote-end".into(), "reject", format!("{good}\"")),
+            ("x-enr-slashes".into(), "reject", format!("enr://{body}")),
+            ("x-prefix-title".into(), "reject", format!("Enr:{body}")),
+            ("x-nul-end".into(), "reject", format!("{good}\0")),
+            ("x-percent".into(), "reject", format!("enr%3A{body}")),
             // other encodings of the very same valid record
             ("x-hex-0x".into(), "reject", format!("0x{}", hex::encode(&rec))),
             ("x-hex".into(), "reject", hex::encode(&rec)),
